@@ -6,10 +6,10 @@ CONSTANTS
   RawW = FALSE
   RawR = TRUE
   RawTotal = 0
-  Tmos <- T1
-  MaxT = 2
-  Spurious = TRUE
-  Interrupts = TRUE
+  Tmos <- TI
+  MaxT = 0
+  Spurious = FALSE
+  Interrupts = FALSE
   Bug = "eintr"
 INVARIANTS ViewIsFunctionOfMoved StreamExact ReadWriteComplete RecvSendBounds NoHangPastTimeout WaitsOnlyForData
 CHECK_DEADLOCK FALSE
